@@ -50,6 +50,7 @@ type App struct {
 	InFlight    atomic.Int32
 	MaxInFlight atomic.Int32
 	SlowPairing atomic.Int64 // ms the application needs for a pairing-detail notification
+	SlowDisc    atomic.Int64 // ms the application needs for a disconnect notification
 }
 
 func (a *App) add(kind, ski string, state int, data string) {
@@ -60,7 +61,12 @@ func (a *App) add(kind, ski string, state int, data string) {
 }
 
 func (a *App) RemoteSKIConnected(ski string)    { a.add("connected", ski, 0, "") }
-func (a *App) RemoteSKIDisconnected(ski string) { a.add("disconnected", ski, 0, "") }
+func (a *App) RemoteSKIDisconnected(ski string) {
+	a.add("disconnected", ski, 0, "")
+	if ms := a.SlowDisc.Load(); ms > 0 {
+		time.Sleep(time.Duration(ms) * time.Millisecond)
+	}
+}
 func (a *App) SetupRemoteDevice(ski string, w api.ShipConnectionDataWriterInterface) api.ShipConnectionDataReaderInterface {
 	a.mu.Lock()
 	a.Writers[ski] = w
@@ -199,6 +205,8 @@ type Fabric struct {
 	start     time.Time
 	// node index -> map[int]string: SKIs the application registers before the next Start of that node
 	pendingPaired sync.Map
+	// UpperSkiTxt: the SKI in the TXT records the fabric delivers is written in upper case
+	UpperSkiTxt atomic.Bool
 }
 
 func NewFabric() *Fabric {
@@ -233,7 +241,12 @@ func (f *Fabric) deliver(x, y int, ann *annData, remove bool) {
 	}
 	// the entry x learns about y points at the proxy x->y
 	f.noteDelivered(x, y, addrs, remove)
-	cb(txtElements(ann.txt), ann.name, "", addrs, px.Port, remove)
+	txt := txtElements(ann.txt)
+	if f.UpperSkiTxt.Load() {
+		// a device may write its SKI in upper case in its TXT record; ship-go treats all spellings alike
+		txt["ski"] = strings.ToUpper(txt["ski"])
+	}
+	cb(txt, ann.name, "", addrs, px.Port, remove)
 }
 
 func (f *Fabric) noteDelivered(x, y int, addrs []net.IP, remove bool) {
